@@ -47,9 +47,15 @@ def main():
     faults = spec.get("faults", {})
     fired = {}
 
+    pending = []
+
     def body():
         with contextlib.redirect_stdout(out):
             report["results"] = mod.main()
+        # a generator (and a coroutine) started inside the block and still suspended when the block is left
+        g = mod.gen("pending")
+        next(g)
+        pending.append(g)
 
     escaped = None
     if spec["mode"] == "traced":
@@ -137,6 +143,7 @@ def main():
         except BaseException as e:  # noqa
             escaped = f"{type(e).__name__}: {e}"
     report["escaped"] = escaped
+    report["pending_finished_after_block"] = [repr(x)[:20] for g in pending for x in g]
     report["global_state"] = global_state()
     report["fired"] = fired
     report["stdout"] = out.getvalue()
